@@ -33,6 +33,9 @@ class Config(collections.namedtuple('Config', 'impl hashseed iro asan')):
         e['ZISIM_IMPL'] = self.impl
         e['PYTHONHASHSEED'] = self.hashseed
         e['PYTHONDONTWRITEBYTECODE'] = '1'
+        e.pop('PYTHONOPTIMIZE', None)
+        if self.iro.endswith('-O'):
+            e['PYTHONOPTIMIZE'] = '1'       # the interpreter strips assert statements (python -O)
         if self.iro in ('strict', 'strict-track'):
             e['ZOPE_INTERFACE_STRICT_IRO'] = '1'
         if self.iro in ('track', 'strict-track'):
